@@ -11,7 +11,7 @@
 (* of the reducer's work list cannot cause a rejection.  One TLC state per *)
 (* record; the monitors are the statements of C03, C07, C12, C13, C15.     *)
 (***************************************************************************)
-EXTENDS TreeMon, TLC, Json, IOUtils
+EXTENDS TreeMon, GLRRuntime, TLC, Json, IOUtils
 
 Dumps  == ndJsonDeserialize(IOEnv.DUMPS)
 Traces == ndJsonDeserialize(IOEnv.TRACES)
@@ -103,7 +103,15 @@ Monitors(r) ==
       c13 == IF gok THEN UNION {C13Tree(r.bytes, trees[i]) : i \in 1 .. Len(trees)} ELSE {}
       c15 == IF r.gres.k \in {"ok", "err"} THEN {} ELSE {<<r.gres.k, r.gres.msg>>}
       cyc == Cyc[g2]
-  IN [cyclic |-> cyc, c03 |-> c03, c07 |-> c07, c12 |-> c12, c13 |-> c13, c15 |-> c15,
+      \* binding of the OPERATIONAL module: GLRRuntime run on the same tokens over the
+      \* same dumped table must predict the observed result and number of solutions
+      \* (a difference is a DIVERGENCE, never a verdict)
+      model == IF islat \/ ~AllLexed(r) \/ cyc \/ r.partial \/ Len(w) > 8 THEN [k |-> "skip", n |-> 0]
+               ELSE LET G == Run(T, w)
+                    IN [k |-> IF G.abort \/ G.hang THEN "abort" ELSE IF Len(G.acc) > 0 THEN "ok" ELSE "err",
+                        n |-> IF Len(G.acc) > 0 /\ ~G.abort /\ ~G.hang THEN Solutions(G) ELSE 0]
+      opdiv == model.k # "skip" /\ r.gres.k \in {"ok", "err"} /\ (model.k # r.gres.k \/ (gok /\ model.n # f.n))
+  IN [cyclic |-> cyc, opdiv |-> opdiv, opmodel |-> model, c03 |-> c03, c07 |-> c07, c12 |-> c12, c13 |-> c13, c15 |-> c15,
       sent |-> sent, ok |-> gok, n |-> f.n, nexp |-> nexp, inscope |-> inScope, ntok |-> Len(w),
       lrran |-> lrran]
 
